@@ -79,7 +79,7 @@ def run(tier):
     g = Gen(rng, nulls=False, cases=False, nots=False, explicit_null=False)      # expressions / predicates: conforming envelope (see C06)
     gn = Gen(rng, cases=False, nots=False, plus=False, neq=False, ors=False, eqcols=False)   # NULL / missing sources
     scen = []
-    n = 1500 if quick else 20000
+    n = 1500 if quick else 60000
     for i in range(n):
         gg = gn if i % 3 == 0 else g
         star = i % 7 == 0
@@ -92,7 +92,7 @@ def run(tier):
     # WHERE over a column that sometimes holds a numeric-looking string or a boolean: an ordering comparison with a number then
     # fails and rejects the row (left to right), whatever path evaluates it
     gm = Gen(rng, nulls=False, cases=False, nots=False, explicit_null=False, mixedkinds=True, ordonly=True, strs=False, paths=False, fns=False, negs=False)
-    for i in range(150 if quick else 2000):
+    for i in range(150 if quick else 6000):
         gm.in_where = True
         w = gm.flatchain(rng.choice([1, 1, 2, 3]))
         if w["t"] in ("and", "or") and i % 2:      # pure AND / pure OR chains are the fast-path shapes; mixed ones go to the general evaluator
@@ -103,15 +103,15 @@ def run(tier):
         if i % 2: sc["mode"] = "sync"
         scen.append(sc)
     # a producer that re-uses one map object for all its rows: every result stays what it was when it was delivered
-    for i in range(60 if quick else 600):
+    for i in range(60 if quick else 2000):
         sc = mk(rng, g, i % 2 == 0, [None, "flat"][i % 2], rng.choice([4, 6]), "sync" if i % 3 else "emit", False)
         sc["reuse"] = True
         scen.append(sc)
     # ordering: rows handed in without waiting; sink and channel must see the results in emission order
-    for i in range(60 if quick else 600):
+    for i in range(60 if quick else 2000):
         scen.append(mk(rng, g, i % 5 == 0, [None, "flat"][i % 2], rng.choice([20, 40]), "emit", True))
     # the same with a tiny input buffer that has to be expanded while the (slowed) processor lags behind: still each row once, in order
-    for i in range(30 if quick else 300):
+    for i in range(30 if quick else 1500):
         sc = mk(rng, g, False, None, rng.choice([30, 40]), "emit", True)
         sc["perf"] = {"strategy": "expand", "data": rng.choice([2, 4, 8]), "max": 400, "mininc": rng.choice([2, 4]), "growth": rng.choice([1.5, 2.0]), "slowsink": rng.choice([100, 300])}
         sc["meta"]["expand"] = 1
